@@ -82,7 +82,7 @@ def fs_obligations(mode, tier, sc):
         vname = "".join("_" + v.split("_")[1][0].lower() + v[-1] for v in var if v.startswith(("GFS_FAULT_KIND", "GFS_DRAIN_POLICY")))
         obs.append(Obligation(
             name="%s_%s_k%02d%s" % (mname, ("tmpdir_json%s" % ("first" if jf else "last")) if tmp else "direct", k, vname), harness="C09/fs_run.c",
-            defines=["GFS_MODE=%d" % mode, "GFS_TMPDIR=%d" % tmp, "GFS_EV_AT=%d" % k, "GFS_BENIGN_SHORT=0"] + (["GFS_JSON_FIRST=%d" % jf] if tmp else []) + (["EXPECT_EVENT=%d" % (1 if k < nslots else 0), "ATTR_FLUSH=1"]) + (["CONCRETE_SIZES"] if mode == 2 else []) + var,
+            defines=["GFS_MODE=%d" % mode, "GFS_TMPDIR=%d" % tmp, "GFS_EV_AT=%d" % k, "GFS_BENIGN_SHORT=0"] + (["GFS_JSON_FIRST=%d" % jf] if tmp else []) + (["EXPECT_EVENT=%d" % (1 if k < nslots else 0), "ATTR_FLUSH=1"]) + (["CONCRETE_SIZES"] if (mode == 2 or tmp) else []) + var,
             unwind=70, unwindset=["ovni_ev_add:3", "add_flush_events:3", "write_evbuf.0:5", "move_thread_to_final.0:5",
                                   "move_thdir_to_final.0:4", "move_thdir_to_final.1:5", "v_readdir.0:4"],
             native_srcs=["src/parson.c"], native_cflags=["-Wl,--allow-multiple-definition"],
@@ -91,7 +91,7 @@ def fs_obligations(mode, tier, sc):
             desc=dict(functions=FUNCS,
                       symbolic="(K = index of the system-call slot that is hit is ENUMERATED by the driver: one obligation per slot, %d slots counted by a native dry run of the real code) fault kind (error with the call's typical errno / error with EINTR / short transfer, short length), " % nslots +
                                "directory enumeration order (one obligation per order), which fwrite/fputs drain the stdio buffer, short-write splits of the stream, "
-                               "buffered byte counts n1 in [700,800), n2 in [400,500) (windows that fix the number of 1 KiB chunks copied), whether ovni_attr_flush is called",
+                               "buffered byte counts n1 in [700,800), n2 in [400,500) (symbolic in direct kill-point mode; fixed to 750/450 in the enumerated relocation and fault obligations so that loop trip counts stay concrete), whether ovni_attr_flush is called",
                       bound="one process, one thread, loom 'l', pid 1, tid 1, OVNI_TRACEDIR unset, OVNI_TMPDIR %s; run = proc_init, thread_init, flush, [attr_flush], flush, thread_free, proc_fini; "
                             "single %s per run" % ("= /t" if tmp else "unset", "kill point" if mode == 1 else "failing call"),
                       out="power loss / page-cache ordering; two simultaneous faults; malloc failure; file contents (lengths and the finished flag are tracked, sequential writing is C01); "
